@@ -467,9 +467,10 @@ Proof.
     conn_case I Hstep c. destruct p; try discriminate Hstep. injection Hstep as <-.
     finish_same I Hn s v Hwf.
   - (* LRejectConc *)
-    conn_case I Hstep c. destruct p; try discriminate Hstep. destruct rg; cbn in Hstep; injection Hstep as <-.
-    + eapply inv_update; [exact I|exact Hn|reflexivity|t_conc v|t_open|t_ip_unreg I s cf ip0|apply loops_rel_free; t_hw v|t_live|t_sc v|t_wf Hwf].
-    + eapply inv_update; [exact I|exact Hn|reflexivity|t_conc v|t_open|t_ip_same I s|apply loops_rel_free; t_hw v|t_live|t_sc v|t_wf Hwf].
+    destruct cerr;
+    (conn_case I Hstep c; destruct p; try discriminate Hstep; destruct rg; cbn in Hstep; injection Hstep as <-;
+     [eapply inv_update; [exact I|exact Hn|reflexivity|t_conc v|t_open|t_ip_unreg I s cf ip0|apply loops_rel_free; t_hw v|t_live|t_sc v|t_wf Hwf]
+     |eapply inv_update; [exact I|exact Hn|reflexivity|t_conc v|t_open|t_ip_same I s|apply loops_rel_free; t_hw v|t_live|t_sc v|t_wf Hwf]]).
   - (* LTryAcquire *)
     conn_case I Hstep c. destruct p; try discriminate Hstep; destruct v as [k|]; try discriminate Hstep. injection Hstep as <-.
     eapply inv_update; [exact I|exact Hn|reflexivity|t_conc VConn|t_open|t_ip_same I s|apply loops_rel_same; t_hw VConn|t_live| |t_wf Hwf].
@@ -500,11 +501,9 @@ Proof.
     destruct v as [k|]; [|destruct Hwf as (_ & [] & _)].
     finish_same I Hn s (VServe k) Hwf.
   - (* LCloseAfter *)
-    conn_case I Hstep c. destruct p; try discriminate Hstep. destruct h; [destruct rg|..]; cbn in Hstep; injection Hstep as <-.
-    + finish_unreg I Hn s cf ip0 v Hwf.
-    + finish_same I Hn s v Hwf.
-    + finish_same I Hn s v Hwf.
-    + finish_same I Hn s v Hwf.
+    destruct cerr;
+    (conn_case I Hstep c; destruct p; try discriminate Hstep; destruct h; [destruct rg|..]; cbn in Hstep; injection Hstep as <-;
+     first [finish_unreg I Hn s cf ip0 v Hwf | finish_same I Hn s v Hwf]).
   - (* LWorkerRelease *)
     conn_case I Hstep c. destruct p; try discriminate Hstep; destruct v as [k|]; try discriminate Hstep.
     destruct (nth_error (loops s) k) as [lp|] eqn:Hk; [|discriminate]. injection Hstep as <-.
@@ -516,13 +515,13 @@ Proof.
     conn_case I Hstep c. destruct p; try discriminate Hstep; destruct v as [k|]; try discriminate Hstep. injection Hstep as <-.
     finish_same I Hn s VConn Hwf.
   - (* LHijackDone *)
-    conn_case I Hstep c. destruct h; try discriminate Hstep. destruct (keep cf); [|destruct rg]; cbn in Hstep; injection Hstep as <-.
-    + destruct p; finish_same I Hn s v Hwf.
-    + destruct p; finish_unreg I Hn s cf ip0 v Hwf.
-    + destruct p; finish_same I Hn s v Hwf.
+    destruct cerr;
+    (conn_case I Hstep c; destruct h; try discriminate Hstep; destruct (keep cf); [|destruct rg]; cbn in Hstep; injection Hstep as <-;
+     destruct p; first [finish_unreg I Hn s cf ip0 v Hwf | finish_same I Hn s v Hwf]).
   - (* LUserClose *)
-    conn_case I Hstep c. destruct p; try discriminate Hstep; destruct rg; cbn in Hstep; injection Hstep as <-.
-    all: first [finish_unreg I Hn s cf ip0 v Hwf | finish_same I Hn s v Hwf].
+    destruct cerr;
+    (conn_case I Hstep c; destruct p; try discriminate Hstep; destruct rg; cbn in Hstep; injection Hstep as <-;
+     first [finish_unreg I Hn s cf ip0 v Hwf | finish_same I Hn s v Hwf]).
 Qed.
 
 Lemma inv_reach cf s : reach cf s -> inv cf s.
